@@ -102,15 +102,31 @@ def build_cov(c):
     raise ValueError(c['type'])
 
 
+def is_cached_rule(rule, t):
+    """deterministic cache content of a task: tile (x, y, z) is cached iff ((x // b) * 7 + (y // b) * 13 + z) % m < r."""
+    if not rule:
+        return False
+    b, m, r = rule
+    return ((t[0] // b) * 7 + (t[1] // b) * 13 + t[2]) % m < r
+
+
+def keep_lit(rule):
+    if not rule:
+        return '(fun _ : coord => true)'
+    b, m, r = rule
+    return "(fun t : coord => let '(x, y, z) := t in negb (((x / %d) * 7 + (y / %d) * 13 + z) mod %d <? %d))" % (b, b, m, r)
+
+
 class StubTM(object):
-    def __init__(self, grid, meta_size):
+    def __init__(self, grid, meta_size, rule=None):
         from mapproxy.grid import MetaGrid
         self.grid = grid
         self.meta_grid = MetaGrid(grid, meta_size=tuple(meta_size), meta_buffer=0)
         self.rescale_tiles = 0
+        self.rule = rule
 
     def is_cached(self, t, dimensions=None):
-        return False
+        return is_cached_rule(self.rule, t)
 
     def is_stale(self, t, dimensions=None):
         return False
@@ -119,18 +135,22 @@ class StubTM(object):
         pass
 
 
-def build_tm(grid, meta_size, real_tm):
+def build_tm(grid, meta_size, real_tm, rule=None):
     if real_tm:
         from mapproxy.cache.tile import TileManager
         from mapproxy.cache.dummy import DummyCache, DummyLocker
-        return TileManager(grid, DummyCache(), [], 'png', DummyLocker(), meta_size=list(meta_size), meta_buffer=0)
-    return StubTM(grid, meta_size)
+
+        class RuleCache(DummyCache):
+            def is_cached(self, tile, dimensions=None):
+                return is_cached_rule(rule, tile.coord)
+        return TileManager(grid, RuleCache(), [], 'png', DummyLocker(), meta_size=list(meta_size), meta_buffer=0)
+    return StubTM(grid, meta_size, rule)
 
 
 def build_task(spec):
     from mapproxy.seed.seeder import SeedTask
     grid = build_grid(spec['grid'])
-    tm = build_tm(grid, spec['meta'], spec.get('real_tm', False))
+    tm = build_tm(grid, spec['meta'], spec.get('real_tm', False), spec.get('cached'))
     cov = build_cov(spec['cov'])
     md = {'name': 'c11', 'cache_name': 'cache', 'grid_name': 'grid'}
     task = SeedTask(md, tm, list(spec['levels']), None, spec.get('refresh_all', True), cov)
@@ -280,11 +300,16 @@ class Run(object):
         return self
 
     def processed(self):
+        """every single tile handed to the workers"""
         out = []
         for e in self.events:
             if e[0] == 'proc':
                 out.extend(e[1])
         return out
+
+    def calls(self):
+        """the lists given to worker_pool.process"""
+        return [e[1] for e in self.events if e[0] == 'proc']
 
 
 class TreeRec(object):
@@ -365,14 +390,25 @@ def ident_lit(i):
     return 'None' if i is None else '(Some %s)' % path_lit(i)
 
 
-def events_lit(evs):
+def oevents_lit(evs):
+    """observable trace: process calls with the complete list handed over"""
     out = []
     for e in evs:
         if e[0] == 'proc':
-            if len(e[1]) != 1:
-                out.append('EErr')      # never produced with work_on_metatiles: makes the case disagree
-            else:
-                out.append('EProc %s' % coord_lit(e[1][0]))
+            out.append('OProc %s' % llit(e[1], coord_lit))
+        elif e[0] == 'rep':
+            out.append('ORep %s %s' % (zlit(e[1]), ident_lit(e[2])))
+        else:
+            out.append('OErr')
+    return '[' + '; '.join(out) + ']'
+
+
+def events_lit(evs, main_of):
+    """trace at the level of meta tiles (tree tie): a process call is identified by the main tile of its list"""
+    out = []
+    for e in evs:
+        if e[0] == 'proc':
+            out.append('EProc %s' % coord_lit(main_of(e[1])))
         elif e[0] == 'rep':
             out.append('ERep %s %s' % (zlit(e[1]), ident_lit(e[2])))
         else:
@@ -502,11 +538,20 @@ def gen_levels(rng, n):
     return ls or [rng.randrange(n)]
 
 
+def gen_cached(rng):
+    """cache content rule (block size, modulus, threshold) or None = empty cache; only looked at without refresh_all"""
+    if rng.random() < 0.4:
+        return None
+    m = rng.choice([2, 3, 5, 7])
+    return [rng.choice([1, 2, 4, 8]), m, rng.randrange(1, m + 1)]
+
+
 def gen_exact_spec(rng):
     gs = gen_exact_grid(rng)
     return {'stream': 'exact', 'grid': gs, 'meta': list(rng.choice([(1, 1), (2, 2), (2, 2), (3, 2), (4, 4), (1, 3), (5, 1)])),
             'levels': gen_levels(rng, len(gs['res'])), 'cov': gen_exact_cov(rng, gs),
-            'skip': rng.choice([0, 0, 0, 0, 1, 2, 3]), 'real_tm': rng.random() < 0.5, 'refresh_all': rng.random() < 0.6}
+            'skip': rng.choice([0, 0, 0, 0, 1, 2, 3]), 'real_tm': rng.random() < 0.5, 'refresh_all': rng.random() < 0.4,
+            'cached': gen_cached(rng)}
 
 
 REAL_GRIDS = [
@@ -550,7 +595,7 @@ def gen_real_spec(rng):
         levels.append(deepest)
     return {'stream': 'real', 'grid': gs, 'meta': list(rng.choice([(1, 1), (2, 2), (4, 4), (3, 2), (8, 8)])),
             'levels': sorted(levels), 'cov': cov, 'skip': rng.choice([0, 0, 0, 1, 2]), 'real_tm': rng.random() < 0.5,
-            'refresh_all': rng.random() < 0.6}
+            'refresh_all': rng.random() < 0.4, 'cached': gen_cached(rng)}
 
 
 # ----------------------------------------------------------------------------- exact geometry for the oracles
@@ -582,6 +627,25 @@ class Geo(object):
     def valid(self, t):
         nx, ny = self.gc.grid_size(t[2])
         return 0 <= t[0] < nx and 0 <= t[1] < ny
+
+    def members(self, t):
+        """valid tiles of the meta tile of t in MetaGrid.tile_list order (rows from the top, x ascending)"""
+        mx, my, l = self.main_tile(*t)
+        sx, sy = self.meta_size(l)
+        ys = list(range(my, my + sy))
+        if not self.gc.ul:
+            ys.reverse()
+        return [(x, y, l) for y in ys for x in range(mx, mx + sx) if self.valid((x, y, l))]
+
+    def expected_call(self, t, handle_all, rule):
+        """the list worker_pool.process must receive for subtile t ([] = no call)"""
+        if handle_all:
+            return [tuple(t)]
+        return [m for m in self.members(t) if not is_cached_rule(rule, m)]
+
+    def main_of(self, tiles):
+        t = tiles[0]
+        return self.main_tile(*t)
 
 
 def bbox_cov_exact(cov_spec, rect):
@@ -664,9 +728,25 @@ class TaskCheck(object):
     def oracle_selection(self, U, geo, exact):
         ctx, spec, task, gc = self.ctx, self.spec, self.task, self.gc
         levels = spec['levels']
-        proc = U.processed()
-        pset = set(proc)
         rep = {'task': spec}
+        handle_all = spec.get('refresh_all', True)
+        rule = spec.get('cached')
+        # (0) what a process call hands over: exactly the members of one meta tile that need work, in tile_list order
+        pset = set()
+        for call in U.calls():
+            bad = None
+            if not call or any(not geo.valid(t) for t in call):
+                bad = 'contains an invalid tile'
+            else:
+                main = geo.main_of(call)
+                want = geo.expected_call(main, handle_all, rule)
+                if [tuple(t) for t in call] != want:
+                    bad = 'is not the list of %s tiles of meta tile %r (expected %r)' % (
+                        'all' if not rule else 'uncached', main, want[:8])
+                pset.add(main)
+            if bad:
+                ctx.fail('handed-list-wrong', 'worker_pool.process received %r which %s' % (list(call)[:8], bad), dict(rep, call=list(call)[:16]))
+                return
         orig = task.intersects
         covcache = {}
 
@@ -745,6 +825,8 @@ class TaskCheck(object):
                         break
                 if not ok:
                     continue
+                if not geo.expected_call(t, handle_all, rule):
+                    continue        # every member is cached: no call expected
                 checked += 1
                 if t not in pset:
                     ctx.fail('selected-tile-not-processed',
@@ -831,6 +913,9 @@ class TaskCheck(object):
     def emit_cases(self, runs, table, U, exact):
         spec, gc, out = self.spec, self.gc, self.out
         rtl = U.report_till
+        geo = Geo(gc, spec['meta'])
+        handle_all = spec.get('refresh_all', True)
+        rule = spec.get('cached')
         if exact:
             zok = True
             try:
@@ -851,9 +936,10 @@ class TaskCheck(object):
                 out['defs'].append(gc.definition())
                 for name, r, k in runs:
                     obs = r.events[:]
-                    term = '(%s, %d, %d, %s, %s, %s, %s, %s, %s, %s)' % (
+                    term = '(%s, %d, %d, %s, %s, %s, %s, %s, %s, (%s, %s), %s)' % (
                         gc.name, spec['meta'][0], spec['meta'][1], covterm, zlit(spec.get('skip', 0)), llit(spec['levels']),
-                        root, ident_lit(r.old), 'None' if not r.crashed else 'Some %d%%nat' % len(obs), events_lit(obs))
+                        root, ident_lit(r.old), 'None' if not r.crashed else 'Some %d%%nat' % len(obs),
+                        blit(handle_all), keep_lit(rule), oevents_lit(obs))
                     out['geo'].append((term, {'task': spec, 'run': name, 'old': r.old, 'crash_at': k, 'events': len(obs),
                                               'observed_tail': [list(e) for e in obs[-4:]]}))
                 return
@@ -866,10 +952,30 @@ class TaskCheck(object):
             self.ctx.count('tree_too_big_for_coq')
             return
         out['tdefs'].append('Definition %s : wnode := %s.' % (tname, tree_lit(U.tree.root, rtl)))
+        # subtiles whose process call is dropped because nothing of their meta tile needs work
+        drop = set()
+
+        def collect(node):
+            if node is None:
+                return
+            for sub in node['subs']:
+                if sub['t'] is not None and not geo.expected_call(tuple(sub['t']), handle_all, rule):
+                    drop.add(tuple(sub['t']))
+                collect(sub['child'])
+        if not handle_all and rule:
+            collect(U.tree.root)
+        dropterm = llit(sorted(drop), coord_lit)
+
+        def main_of(call):
+            try:
+                return geo.main_of(call)
+            except Exception:  # noqa
+                return (-1, -1, -1)
         for name, r, k in runs:
             obs = r.events[:]
-            term = '(%s, %s, %s, %s, %s)' % (tname, zlit(spec['levels'][0]), ident_lit(r.old),
-                                             'None' if not r.crashed else 'Some %d%%nat' % len(obs), events_lit(obs))
+            term = '(%s, %s, %s, %s, %s, %s)' % (tname, zlit(spec['levels'][0]), ident_lit(r.old),
+                                                 'None' if not r.crashed else 'Some %d%%nat' % len(obs), dropterm,
+                                                 events_lit(obs, main_of))
             out['tree'].append((term, {'task': spec, 'run': name, 'old': r.old, 'crash_at': k, 'events': len(obs)}))
 
 
@@ -979,15 +1085,16 @@ def run(ctx):
         except Exception as e:  # noqa
             import traceback
             ctx.problem('harness', 'task check raised %r' % (e,), {'task': spec, 'trace': traceback.format_exc()[-1500:]})
-    cut = "let cut := fun (k : option nat) (l : list event) => match k with None => l | Some n => firstn n l end in "
     ctx.corr_check('geo_walk', 'Grid Seed',
-                   'grid * Z * Z * (bbox -> Z) * Z * list Z * bbox * option path * option nat * list event',
+                   'grid * Z * Z * (bbox -> Z) * Z * list Z * bbox * option path * option nat * (bool * (coord -> bool)) * list oevent',
                    [t for t, _ in out['geo']],
-                   "fun c => let '(g, msx, msy, cv, sk, lvls, root, old, k, obs) := c in " + cut +
-                   "events_eqb (cut k (geo_walk g msx msy cv sk lvls root old)) obs",
+                   "fun c => let '(g, msx, msy, cv, sk, lvls, root, old, k, (hall, keep), obs) := c in "
+                   "let cut := fun (k : option nat) (l : list oevent) => match k with None => l | Some n => firstn n l end in "
+                   "oevents_eqb (cut k (observe g msx msy hall keep (geo_walk g msx msy cv sk lvls root old))) obs",
                    lambda i: out['geo'][i][1], defs='\n'.join(out['defs']), shard=ctx.n(12, 40))
-    ctx.corr_check('tree_walk', 'Grid Seed', 'wnode * Z * option path * option nat * list event',
+    ctx.corr_check('tree_walk', 'Grid Seed', 'wnode * Z * option path * option nat * list coord * list event',
                    [t for t, _ in out['tree']],
-                   "fun c => let '(tr, flv, old, k, obs) := c in " + cut +
-                   "events_eqb (cut k (run_walk old tr flv)) obs",
+                   "fun c => let '(tr, flv, old, k, drop, obs) := c in "
+                   "let cut := fun (k : option nat) (l : list event) => match k with None => l | Some n => firstn n l end in "
+                   "events_eqb (cut k (drop_procs drop (run_walk old tr flv))) obs",
                    lambda i: out['tree'][i][1], defs='\n'.join(out['tdefs']), shard=ctx.n(12, 40))
